@@ -351,4 +351,16 @@ pub mod verif_stats {
     pub fn length_vec<T: Default + Copy>(s: &LengthStats<T>) -> Vec<(u32, u64)> {
         s.0.iter().map(|&(a, b)| (a.as_value(), b)).collect()
     }
+    pub fn size_vec_ref<T>(s: &RecordSizeStats<T>) -> &Vec<(PieceSize<T>, u64)> {
+        &s.0
+    }
+    pub fn size_vec_mut<T>(s: &mut RecordSizeStats<T>) -> &mut Vec<(PieceSize<T>, u64)> {
+        &mut s.0
+    }
+    pub fn length_vec_ref<T: Default>(s: &LengthStats<T>) -> &Vec<(Length<T>, u64)> {
+        &s.0
+    }
+    pub fn length_vec_mut<T: Default>(s: &mut LengthStats<T>) -> &mut Vec<(Length<T>, u64)> {
+        &mut s.0
+    }
 }
